@@ -701,4 +701,39 @@ example : RunAgree []
     (.cons ⟨none, none, .keep, by decide, by decide, by decide, by decide⟩
       (.cons ⟨none, some 1, .pop 1 [] (by omega) rfl, by decide, by decide, by decide, by decide⟩ (.nil _)))
 
+/-- the kind of a span directive byte, as an index into `spanBits` (emph, strong, strike, pre) -/
+def kindIdx (b : UInt8) : Nat := if b = under then 0 else if b = star then 1 else if b = tilde then 2 else 3
+
+theorem kindIdx_lt (b : UInt8) : kindIdx b < 4 := by unfold kindIdx; split <;> (try split) <;> (try split) <;> omega
+
+/-- consecutive decoders of a run are related by stack steps of span kinds -/
+def StackChain : Dec → List (Bytes × Dec) → Prop
+  | _, [] => True
+  | d, (_, d') :: rest =>
+    (∃ pu po, StackStep (d.openSpans.map kindIdx) (d'.openSpans.map kindIdx) pu po) ∧ StackChain d' rest
+
+theorem stackChain_of_runSteps : ∀ (l : List (Bytes × Dec)) (d : Dec) (R : Bytes), RunSteps d R l → StackChain d l := by
+  intro l
+  induction l with
+  | nil => intro _ _ _; trivial
+  | cons y ys ih =>
+    intro d R h
+    obtain ⟨t, d'⟩ := y
+    refine ⟨?_, ih d' _ h.2⟩
+    rcases h.1.lifo with e | ⟨b, e⟩ | ⟨b, e⟩
+    · rw [e]; exact ⟨none, none, .keep⟩
+    · rw [e, List.map_cons]; exact ⟨some (kindIdx b), none, .push _ (kindIdx_lt b)⟩
+    · rw [e, List.map_cons]; exact ⟨none, some (kindIdx b), .pop _ _ (kindIdx_lt b) rfl⟩
+
+/-- **half (a) of the bridge, in the automaton's vocabulary**: for every document and schedule
+the open spans of the decoder, read as span kinds innermost first, start empty, move by the
+stack steps keep / push k / pop k of the caller's automaton from token to token, and end empty.
+With `C17_bracketing_masks_of_agree_partial` what remains open for the masks is only that the
+start / end / style bits of each returned mask name the step of its token. -/
+theorem C17_stack_steps_partial (sch : Schedule) (doc : Bytes) :
+    StackChain {} (scanDoc none sch doc).1 ∧
+    ((finalDec {} (scanDoc none sch doc).1).openSpans.map kindIdx = []) := by
+  have h := C17_bracketing sch doc
+  exact ⟨stackChain_of_runSteps _ _ _ h.1, by rw [h.2]; rfl⟩
+
 end XmppModel.Props.C17
